@@ -107,7 +107,8 @@ CHECKS["C18"] = dict(
          "lets letters into variable tokens (lex_variable_letters) and the parser only puts tokens of its input into the tree (parse_vtok, "
          "induction over the parser's recursion). "
          "Tie: AST correspondence; ast.walk oracle on the real output against the regenerated vocabulary, adversarial payloads at every "
-         "program-text position (exhaustive to length 2/3) and random code-page / Unicode strings.",
+         "program-text position (exhaustive to length 2/3), attacks on the escaping of string constants, and random code-page / Unicode strings; "
+         "the same with the V flag on (one-character variable names: a lexer mode the Lean lexer model does not have, so for it the oracle is all there is).",
     note=COMMON_NOTE + "The step from the emitted text to the tree is the AST correspondence. T3: repr(str)/str(int) produce valid literals.",
     technique="Lean 4 proof (mutual structural induction over the transpiler model, lexer loop invariants, induction on strings, kernel evaluation over tables); AST correspondence; ast.walk vocabulary oracle",
     ref="§5 C18")
@@ -194,7 +195,8 @@ CHECKS["C09"] = dict(
          "loop of helpers.pop (pop_frame: exactly the top k leave, top first, everything below is the same list, no input is read; pop_retain: "
          "under retain_popped the stack is unchanged; pop_short: on a short stack the missing values are the next inputs). "
          "Tie: the table is regenerated on every run; the pop model against the real helper on every (stack length, count, flags) up to 5; sentinel-prefix runs of every key and of "
-         "modifier x element on generated argument tuples (identity and contents of the prefix, also on exceptions).",
+         "modifier x element on generated argument tuples (identity and contents of the prefix, also on exceptions); the documented whole-stack "
+         "operations ^ W ! „ ‟ Ȯ against their documented result at every depth 0..4.",
     note=COMMON_NOTE + "T7: statements that do not mention `stack` are neutral (a helper could reach the stack through ctx.stacks[-1]): validated by the sentinel "
          "runs, which found exactly that for printing a function value (known finding F31). Modifier templates pop a run-time arity: sentinel runs only.",
     technique="Lean 4 proof: abstract interpretation + soundness by mutual induction on derivations; decide +kernel over regenerated templates; sentinel differential",
